@@ -25,6 +25,12 @@ func (u *Unit) doCall(st *State, fr *Frame, in *ssa.Call, k Kont) {
 	case *ssa.Builtin:
 		k(st, u.builtin(st, fr, in, v, args))
 		return
+	}
+	// a slice handed to a call may be retained or re-sliced by the callee
+	for _, a := range args {
+		u.escape(st, a)
+	}
+	switch v := cc.Value.(type) {
 	case *ssa.Function:
 		u.callStatic(st, fr, in, v, args, nil, k)
 		return
@@ -94,6 +100,10 @@ func (u *Unit) callStatic(st *State, fr *Frame, in *ssa.Call, fn *ssa.Function, 
 		return
 	}
 	if u.specMode > 0 {
+		if ct := u.P.ContractOf(fn); ct != nil && ct.Pure && InRepo(fn) {
+			k(st, u.pureGhost(st, fn, args, in.Type()))
+			return
+		}
 		// pure evaluation of spec functions / pure helpers of the real code
 		if InRepo(fn) || fn.Synthetic != "" || u.isSpecFile(fn) || (execDep(name) && fn.Blocks != nil) {
 			k(st, u.evalPure(st, fn, args, bind))
@@ -102,8 +112,13 @@ func (u *Unit) callStatic(st *State, fr *Frame, in *ssa.Call, fn *ssa.Function, 
 		k(st, u.pureExternal(st, name, args, in.Type()))
 		return
 	}
+	if u.isSpecFile(fn) && fn.Parent() == nil && !strings.HasPrefix(fn.Name(), "gvcL_") {
+		// spec functions are side-effect free: one value, no path forking
+		k(st, u.evalPure(st, fn, args, bind))
+		return
+	}
 	if InRepo(fn) || fn.Synthetic != "" || u.isSpecFile(fn) {
-		if ct := u.P.ContractOf(fn); ct != nil && fn != u.Target && !u.Cfg.NoContracts[FuncName(fn)] && !u.Cfg.NoContracts["*"] {
+		if ct := u.P.ContractOf(fn); ct != nil && fn != u.Target && !u.Cfg.NoContracts[FuncName(fn)] && !u.Cfg.NoContracts[shortFuncName(fn)] && !u.Cfg.NoContracts["*"] {
 			u.useContract(st, fr, in, fn, ct, args, k)
 			return
 		}
@@ -125,7 +140,21 @@ func (u *Unit) callStatic(st *State, fr *Frame, in *ssa.Call, fn *ssa.Function, 
 		u.runFunc(st, fn, args, bind, fr.depth+1, k)
 		return
 	}
-	u.Assumed["unmodelled external (result unconstrained, no effect on caller memory): "+name]++
+	// unknown external code: everything reachable from its pointer-like
+	// arguments may have been written
+	hv := false
+	for _, a := range args {
+		switch a.(type) {
+		case SliceV, PtrV, MapV, FuncV, IfaceV, StructV:
+			hv = true
+		}
+	}
+	if hv {
+		u.havocReachable(st, args)
+		u.Assumed["unmodelled external (result unconstrained; memory reachable from its arguments havocked): "+name]++
+	} else {
+		u.Assumed["unmodelled external (result unconstrained): "+name]++
+	}
 	k(st, u.havocResult(st, in.Type(), "ext_"+fn.Name()))
 }
 
@@ -282,6 +311,21 @@ func (u *Unit) appendBuiltin(st *State, fr *Frame, in *ssa.Call, args []Val) Val
 	newLen := WithBounds(Add(sLen, n), big.NewInt(0), new(big.Int).Mul(MaxLen, big.NewInt(2)))
 	fits := Le(newLen, s.Cap)
 	xo := u.name(xOff, "xo")
+	// a fresh block nobody else can reference: in place or not is unobservable
+	if !(s.Blk.IsInt && s.Blk.I.Sign() == 0) {
+		if r := u.regionOf(st, s.Blk); r.Fresh && !r.Escaped && !r.Virt && u.specMode == 0 {
+			sC0, sOff0 := r.C, u.name(s.Off, "so")
+			nr := &Region{Blk: u.allocID(st), Fresh: true}
+			nr.C = u.mkArr(func(j *Term) *Term {
+				return Ite(Lt(j, sLen), Select(sC0, Add(sOff0, j)), Select(xArr, Add(xo, Sub(j, sLen))))
+			})
+			u.addRegion(st, nr)
+			cp := u.newInt("cap")
+			u.assume(And(Le(newLen, cp), Le(cp, BigLit(MaxLen))))
+			u.LinearAppends++
+			return SliceV{Blk: nr.Blk, Off: IntLit(0), Len: newLen, Cap: cp, Elem: s.Elem}
+		}
+	}
 	// decide statically when possible
 	fitsPossible := !(fits.IsBool && !fits.B)
 	if fitsPossible && !fits.IsBool {
@@ -485,6 +529,9 @@ func (u *Unit) useContract(st *State, fr *Frame, in *ssa.Call, fn *ssa.Function,
 	}
 	u.ctxBase = savedBase
 	u.noNilMerge = false
+	if ct.Pure {
+		u.tieToGhost(st, res, u.pureGhost(st, fn, args, in.Type()))
+	}
 	// vacuity guard: a contract that is true of the body cannot make a
 	// feasible path infeasible
 	if u.S.CheckSatT(u.Cfg.FeasMs) == "unsat" {
@@ -556,6 +603,116 @@ func (u *Unit) walkIfaces(st *State, v Val, depth int, f func(IfaceV)) {
 	case PtrV:
 		if x.Cell != nil && x.Blk == nil && !(x.Nil.IsBool && x.Nil.B) {
 			u.walkIfaces(st, u.loadPath(st, x), depth+1, f)
+		}
+	}
+}
+
+// pureGhost: the value a function declared `pure` returns is a function of the
+// deep value of its arguments (memoised per state).  Byte slices are ghost
+// sequences (contents and length, no block identity).
+func (u *Unit) pureGhost(st *State, fn *ssa.Function, args []Val, t types.Type) Val {
+	key := "pure:" + fn.String()
+	for _, a := range args {
+		key += "|" + u.valKey(st, a, 0)
+	}
+	if v, ok := st.memo[key]; ok {
+		return v
+	}
+	saved := u.specMode
+	u.specMode++ // ghost slices are virtual regions
+	v := u.ghostVal(st, t, "pg_"+fn.Name())
+	u.specMode = saved
+	st.memo[key] = v
+	return v
+}
+
+func (u *Unit) ghostVal(st *State, t types.Type, name string) Val {
+	switch x := t.(type) {
+	case *types.Tuple:
+		if x.Len() == 0 {
+			return nil
+		}
+		e := make([]Val, x.Len())
+		for i := range e {
+			e[i] = u.ghostVal(st, x.At(i).Type(), fmt.Sprintf("%s_%d", name, i))
+		}
+		return TupleV{E: e}
+	}
+	if isByteSlice(t) {
+		l := u.newInt(name + "_len")
+		u.assume(And(Le(IntLit(0), l), Le(l, BigLit(MaxLen))))
+		r := u.virtRegion(st, u.newArr(name))
+		return SliceV{Blk: r.Blk, Off: IntLit(0), Len: WithBounds(l, big.NewInt(0), MaxLen), Cap: l, Elem: t.Underlying().(*types.Slice).Elem()}
+	}
+	return u.freshVal(st, t, name, false)
+}
+
+// tieToGhost: the results of a real call to a pure function equal its ghost.
+func (u *Unit) tieToGhost(st *State, res, ghost Val) {
+	switch r := res.(type) {
+	case TupleV:
+		g, ok := ghost.(TupleV)
+		if !ok {
+			return
+		}
+		for i := range r.E {
+			u.tieToGhost(st, r.E[i], g.E[i])
+		}
+	case SliceV:
+		g, ok := ghost.(SliceV)
+		if !ok || r.List != nil {
+			return
+		}
+		ra, rb := u.regionOf(st, r.Blk), u.regionOf(st, g.Blk)
+		u.assume(u.seqEqTerm(ra.C, r.Off, r.Len, rb.C, g.Off, g.Len))
+	case *Term:
+		if g, ok := ghost.(*Term); ok {
+			u.assume(Eq(r, g))
+		}
+	case IfaceV:
+		if g, ok := ghost.(IfaceV); ok {
+			u.assume(Eq(r.Nil, g.Nil))
+		}
+	case ArrV:
+		if g, ok := ghost.(ArrV); ok {
+			u.assume(u.seqEqTerm(r.Arr, IntLit(0), IntLit(r.N), g.Arr, IntLit(0), IntLit(g.N)))
+		}
+	}
+}
+
+// havocReachable forgets the contents of all memory reachable from vals.
+func (u *Unit) havocReachable(st *State, vals []Val) {
+	rc := map[int]bool{}
+	rr := map[string]bool{}
+	rm := map[int]bool{}
+	for _, v := range vals {
+		u.reach(st, v, rc, rr, rm, 0)
+	}
+	for id := range rc {
+		c := u.cellByID[id]
+		if c == nil || strings.HasPrefix(c.Name, "g:") {
+			continue
+		}
+		delete(st.cells, id)
+		st.symCells[id] = true
+	}
+	for k := range rr {
+		r := st.regions[k]
+		if r == nil || r.Virt {
+			continue
+		}
+		nr := *r
+		nr.C = u.newArr("Ch")
+		nr.Written = true
+		nr.Escaped = true
+		st.regions[k] = &nr
+		if !r.Fresh {
+			u.frameWrite(st, r, "external call")
+		}
+	}
+	for id := range rm {
+		if ms := st.maps[id]; ms == nil || ms.Global == "" {
+			st.maps[id] = &MapState{Opaque: true}
 		}
 	}
 }
